@@ -163,16 +163,12 @@ use {
             once,
             repeat_n,
         },
-        mem::{
-            ManuallyDrop,
-            MaybeUninit,
-        },
+        mem::ManuallyDrop,
         num::NonZero,
         ptr::read,
         sync::{
             Arc,
             Mutex,
-            Once,
         },
         thread::{
             self,
@@ -288,20 +284,6 @@ use {
 #[derive(Clone, Debug, Eq, Hash, Ord, PartialEq, PartialOrd)]
 pub struct AdjacencyMap {
     arcs: BTreeMap<usize, BTreeSet<usize>>,
-}
-
-#[allow(static_mut_refs)]
-fn empty_set() -> &'static BTreeSet<usize> {
-    static mut EMPTY: MaybeUninit<BTreeSet<usize>> = MaybeUninit::uninit();
-    static INIT: Once = Once::new();
-
-    unsafe {
-        INIT.call_once(|| {
-            let _ = EMPTY.write(BTreeSet::new());
-        });
-
-        EMPTY.assume_init_ref()
-    }
 }
 
 impl AddArc for AdjacencyMap {
@@ -861,24 +843,10 @@ impl IsSemicomplete for AdjacencyMap {
             return false;
         }
 
-        let mut out_neighbors = Vec::<&BTreeSet<_>>::with_capacity(order);
-
-        for u in self.vertices() {
-            out_neighbors
-                .push(self.arcs.get(&u).unwrap_or_else(|| empty_set()));
-        }
-
-        let ptr = out_neighbors.as_ptr();
-
-        unsafe {
-            for u in self.vertices() {
-                for v in self.vertices() {
-                    if u != v
-                        && !(*ptr.add(u)).contains(&v)
-                        && !(*ptr.add(v)).contains(&u)
-                    {
-                        return false;
-                    }
+        for (u, out_u) in &self.arcs {
+            for (v, out_v) in &self.arcs {
+                if u != v && !out_u.contains(v) && !out_v.contains(u) {
+                    return false;
                 }
             }
         }
@@ -903,6 +871,7 @@ impl IsTournament for AdjacencyMap {
     ///
     /// The time complexity is `O(v² log v)`, where `v` is the digraph's
     /// order.
+    #[allow(clippy::suspicious_operation_groupings)]
     fn is_tournament(&self) -> bool {
         let order = self.order();
 
@@ -910,24 +879,10 @@ impl IsTournament for AdjacencyMap {
             return false;
         }
 
-        let mut out_neighbors = Vec::<&BTreeSet<_>>::with_capacity(order);
-
-        for u in self.vertices() {
-            out_neighbors
-                .push(self.arcs.get(&u).unwrap_or_else(|| empty_set()));
-        }
-
-        let ptr = out_neighbors.as_ptr();
-
-        unsafe {
-            for u in self.vertices() {
-                for v in self.vertices() {
-                    if u != v
-                        && (*ptr.add(u)).contains(&v)
-                            == (*ptr.add(v)).contains(&u)
-                    {
-                        return false;
-                    }
+        for (u, out_u) in &self.arcs {
+            for (v, out_v) in &self.arcs {
+                if u != v && out_u.contains(v) == out_v.contains(u) {
+                    return false;
                 }
             }
         }
